@@ -35,7 +35,7 @@ class TBPath:
         for a, v in path.atoms.items():
             r = role_of(a)
             if r is None:
-                raise AnalysisError(f"_generate_transition_body branches on an unknown condition: {a!r} - needs triage")
+                r = "?" + a     # an atom the table does not know: kept as a free atom; the row must hold for both its values
             if r in self.roles and self.roles[r] != v:
                 raise AnalysisError(f"two atoms map to role {r} with different values")
             self.roles[r] = v
@@ -52,6 +52,20 @@ class TBPath:
         if a is True and s is False and e is True:
             return True
         return None
+
+    def completions(self):
+        """The path's valuation completed over spec atoms the template did not consult (same emitted lines for each):
+        a correct template only skips an atom when it cannot matter, so every completion must satisfy its own row."""
+        import itertools
+        unknown = [r for r in ("FALL", "ACCEPT", "STRICT", "ALLERR", "FROM_END") if r not in self.roles]
+        out = []
+        for vals in itertools.product((True, False), repeat=len(unknown)):
+            t = TBPath.__new__(TBPath)
+            t.path, t.items, t.events = self.path, self.items, self.events
+            t.roles = dict(self.roles)
+            t.roles.update(dict(zip(unknown, vals)))
+            out.append(t)
+        return out
 
     def row(self):
         if self.get("FALL") is True:
